@@ -7,10 +7,15 @@ package seqhash
 // verif:bound C12 all 256 byte values: length 0..6 (quick) / 0..7 (thorough); alphabet {A,B}: length <= 10 / 13; {A,B,C}: <= 8 / 9; ACGT: <= 7 / 8
 // verif:bound C12 long-string clause: lengths 32767 and 65536 (quick) / 4097..100003 (thorough): a C/G/T body with a single A at 4 positions and two symbolic letters; expected result: the rotation starting at the A
 // verif:bound C12 all-rotations-agree clause: length <= 5 (quick) / 6 (thorough) over all byte values
+// verif:bound C12 call-independence clause: a sequence of 5..6 (quick) / 5..8 (thorough) letters over A C rotated first, then a sequence of 1..3 (quick) / 1..4 (thorough) ACGT letters (must be its own least rotation), then the first again (same result)
 // verif:bound C12 outside the claim: strings longer than the stated lengths (the property's quantifier goes to 10^6)
 
 func vC12Check(n int, dom string) {
-	s := vBytes(n, dom)
+	vC12CheckStr(vBytes(n, dom))
+}
+
+func vC12CheckStr(s string) {
+	n := len(s)
 	r := RotateSequence(s)
 	vAssert(len(r) == n, "length-preserved")
 	isRot := vOr()
@@ -43,6 +48,18 @@ func Harness_C12_Ternary() {
 func Harness_C12_ACGT() {
 	n := vChoice(vTier(8, 9))
 	vC12Check(n, "ACGT")
+}
+
+// the result depends on this call's argument only: a shorter sequence rotated after a longer one,
+// and the same sequence rotated again, in one process
+func Harness_C12_AfterAnotherCall() {
+	m := 5 + vChoice(vTier(2, 4))
+	first := vBytes(m, "AC")
+	r1 := RotateSequence(first)
+	vAssert(len(r1) == m, "length-preserved")
+	n := 1 + vChoice(vTier(3, 4))
+	vC12CheckStr(vBytes(n, "ACGT"))
+	vAssert(vEqStr(RotateSequence(first), r1), "same-argument-same-result")
 }
 
 // every rotation of a sequence is canonicalised to one and the same string
